@@ -586,7 +586,13 @@ def run_case(case, dec):
     # tensors limit how well the trace can be preserved
     tol_norm = max(1e-9, 300 * case["epsrel"])
     if "tempo" in case["pts"]:
-        tol_norm = max(tol_norm, 1e-6)
+        # a PT-TEMPO tensor computed with epsrel 1e-8 preserves the trace to
+        # ~1e-8 per step: the trace error of the *input* grows with the
+        # number of steps and of such tensors (observed 1.3e-6 after 91
+        # steps with two of them); the chain itself is judged against the
+        # single-site computations with the same tensors below
+        tol_norm = max(tol_norm, 1e-6, 5e-8 * case["steps"]
+                       * case["pts"].count("tempo"))
     if nerr > tol_norm:
         viol("norm_not_one", "%s/n%d" % (case["kind"], n),
              "|norm - 1| = %.3g (tolerance %.2g)" % (nerr, tol_norm))
